@@ -311,6 +311,57 @@ def marginal_branches(ctx: Ctx):
     ok = ax_r == ["1", "1"] and ax_c == ["0", "0"] and all("(slice(None, None, None), " in s or s.startswith("(:") or s.startswith("slice") or ":, " in s for s in sub_r)
     ctx.ob("marginal-mirror.stddev", f"{MM}::_ScaleMeanStddev._rows/_columns_weighted_mean_stddev", f"rows: axis={ax_r} mask={sub_r}; columns: axis={ax_c} mask={sub_c}", "rows: axis 1, mask on columns; columns: axis 0, mask on rows", ax_r == ["1", "1"] and ax_c == ["0", "0"] and all(s.replace(" ", "").startswith(":,") or s.replace(" ","").startswith("(:,") for s in sub_r) and all(s.replace(" ", "").endswith(",:") or s.replace(" ","").endswith(",:)") for s in sub_c))
     ctx.require_min("marginal branch pairs", 15)
+    twin_arithmetic(ctx)
+
+
+_ARITH_CALLS = {"np.sum", "np.nansum", "np.sqrt", "pow", "np.power", "np.mean", "np.nanmean", "np.dot", "np.matmul", "np.einsum", "np.average", "np.square", "np.multiply", "np.divide",
+                "np.true_divide", "np.subtract", "np.add", "np.inner", "np.tensordot", "np.var", "np.std", "np.cumsum", "np.prod", "np.median", "np.convolve"}
+
+
+def _arith_profile(fns):
+    import collections
+
+    # one name per operation, whatever its spelling (x ** 2 = pow(x, 2) = np.square(x); a.sum() = np.sum(a); a @ b = np.dot(a, b))
+    same = {"pow": "Pow", "np.power": "Pow", "np.square": "Pow", "np.multiply": "Mult", "np.divide": "Div", "np.true_divide": "Div", "np.subtract": "Sub", "np.add": "Add",
+            "np.dot": "MatMult", "np.matmul": "MatMult", ".dot": "MatMult", ".sum": "np.sum", ".mean": "np.mean", ".prod": "np.prod", ".cumsum": "np.cumsum"}
+    c = collections.Counter()
+    for fn in fns:
+        for n in ast.walk(fn):
+            name = None
+            if isinstance(n, ast.BinOp):
+                name = type(n.op).__name__
+            elif isinstance(n, ast.Call) and u(n.func) in _ARITH_CALLS:
+                name = u(n.func)
+            elif isinstance(n, ast.Call) and isinstance(n.func, ast.Attribute) and n.func.attr in ("sum", "dot", "mean", "prod", "cumsum") and not u(n.func).startswith("np."):
+                name = "." + n.func.attr
+            if name is not None:
+                c[same.get(name, name)] += 1
+    return c
+
+
+def twin_arithmetic(ctx: Ctx):
+    """Row / column twins written as two separate functions compute by the SAME arithmetic (the same operations the same
+    number of times, helpers they call included) - only the axes differ.  Algebraically equal but differently arranged
+    arithmetic (an expanded square on one side, a deviation form on the other) rounds differently: a zero-variance
+    column then gives NaN or 1e-8 where its row twin gives 0.0, and A x B is no longer the transpose of B x A."""
+    from ..stmts import reachable_functions
+
+    pairs = [(MM, "_ScaleMeanStddev", "_rows_weighted_mean_stddev", "_columns_weighted_mean_stddev")]
+    for cname in ("SumSubtotals", "PositiveTermSubtotals", "NegativeTermSubtotals", "NanSubtotals", "WaveDiffSubtotal"):
+        pairs.append((MS, cname, "_subtotal_row", "_subtotal_column"))
+    n = 0
+    for short, cname, rname, cname_ in pairs:
+        ci = ctx.repo.opt_cls(short, cname)
+        if ci is None or ctx.repo.lookup(ci, rname) is None or ctx.repo.lookup(ci, cname_) is None:
+            continue
+        pr = _arith_profile(reachable_functions(ctx.repo, ci, rname))
+        pc = _arith_profile(reachable_functions(ctx.repo, ci, cname_))
+        n += 1
+        only_r, only_c = dict(pr - pc), dict(pc - pr)
+        ctx.ob("twin-arithmetic", f"{short}::{cname}.{rname} <-> {cname_}", f"rows only: {only_r}; columns only: {only_c}" if (only_r or only_c) else f"same arithmetic on both sides: {dict(pr)}",
+               "the same operations on both sides (only the axes differ)", not (only_r or only_c), "twins that round differently are not each other's transposes")
+    ctx.count("twin function pairs compared by arithmetic", n)
+    ctx.require_min("twin function pairs compared by arithmetic", 4)
 
 
 def _last_leaf(e):
